@@ -95,6 +95,14 @@ def plan(tier, seed):
             inner = [o, L(x), L(y)]
             trees += [['neg', inner], ['k*', 'int3', inner], ['*k', 'float.5', inner], ['/k', 'jnp0d', inner],
                       [o, ['k*', 'neg2', L(x)], ['k*', 'npf32', L(y)]], [o, ['neg', L(x)], ['/k', 'np0d', L(y)]]]
+    # sign changes of expressions that already carry two or three scalar factors (an even number must not cancel the sign)
+    for x, y in itertools.product(core, repeat=2):
+        for o in BIN:
+            two = [o, ['k*', 'neg2', L(x)], ['k*', 'npf32', L(y)]]
+            trees += [['neg', two], ['neg', ['k*', 'int3', two]], ['-', L(x), two], ['neg', ['neg', two]]]
+    for x in core:
+        trees += [['neg', ['k*', 'int3', ['k*', 'float.5', L(x)]]], ['neg', ['/k', 'np0d', ['neg', L(x)]]], ['neg', ['neg', ['k*', 'int3', L(x)]]],
+                  ['neg', ['*k', 'jnp0d', ['/k', 'neg2', ['k*', 'npf32', L(x)]]]]]
     small = ['P', 'Q', 'D', 'K']
     for x, y, z, w in itertools.product(small, repeat=4):
         for o, o1, o2 in itertools.product(BIN, repeat=3):
